@@ -11,6 +11,7 @@ import (
 	"regexp"
 	"sort"
 	"strings"
+	"sync/atomic"
 
 	"google.golang.org/protobuf/proto"
 	"google.golang.org/protobuf/types/descriptorpb"
@@ -160,6 +161,23 @@ type expEnv struct {
 	// Workspace by identity, so a long-lived client must reuse it to be cached
 	ws    source.Workspace
 	wsKey string
+	hook  *hookOpener
+	// cancelAt > 0: the next step first runs a compilation that is cancelled when the cancelAt-th file is opened
+	cancelAt int
+}
+
+// hookOpener is the opener of an environment; a test can have a function called on every Open (used to cancel a
+// compilation half-way). The object stays the same, so query keys (which contain the opener) stay the same.
+type hookOpener struct {
+	inner  source.Opener
+	onOpen atomic.Pointer[func(path string)]
+}
+
+func (h *hookOpener) Open(path string) (*source.File, error) {
+	if f := h.onOpen.Load(); f != nil {
+		(*f)(path)
+	}
+	return h.inner.Open(path)
 }
 
 func newExpEnv(files map[string]string, par int) *expEnv {
@@ -170,7 +188,8 @@ func newExpEnv(files map[string]string, par int) *expEnv {
 	e := &expEnv{Map: m, Session: new(ir.Session)}
 	// user files first, exactly like experimental/ir's own tests; built-in
 	// WKT sources as fallback.
-	e.Opener = &source.Openers{m, source.WKTs()}
+	e.hook = &hookOpener{inner: &source.Openers{m, source.WKTs()}}
+	e.Opener = e.hook
 	if par > 0 {
 		e.Exec = incremental.New(incremental.WithParallelism(int64(par)))
 	} else {
